@@ -102,14 +102,18 @@ HocrHeader == OpenTag(hHTML, <<cSP, gHOCRHTMLATTRS>>) \o <<cLF>> \o OpenTag(hHEA
 HocrFooter == <<gHOCRCOMMENT1, cLF, gHOCRCOMMENT2>> \o EndTag(hBODY) \o EndTag(hHTML) \o <<cLF>>
 HocrFont(j) == IF "HocrFontRaw" \in dev THEN T[j].f ELSE Enc(T[j].f)
 HocrText(s) == IF "HocrTextRaw" \in dev THEN s ELSE Enc(s)
+\* recorded trees: a size class of 50000 or more marks a font whose name holds "Bold" / "Italic" (write_word adds a
+\* font-weight / font-style declaration, one more opaque token); the enumerated trees have no such fonts
+Styled(j) == T[j].a >= 50000
 WriteWord(ww) ==
   IF ww.text = <<>> THEN <<>>
-  ELSE OpenTag(hSPAN, AAttr(bSTYLE, <<gFONTQ>> \o HocrFont(ww.first) \o <<gQFONTSIZE>> \o HNum(ww.first, hWSIZE) \o <<gSEMISP>>)
+  ELSE OpenTag(hSPAN, AAttr(bSTYLE, <<gFONTQ>> \o HocrFont(ww.first) \o <<gQFONTSIZE>> \o HNum(ww.first, hWSIZE) \o <<gSEMISP>>
+                                       \o (IF Styled(ww.first) THEN HNum(ww.first, 8) ELSE <<>>))
                       \o AAttr(bCLASS, <<gOCRXWORD>>)
                       \o AAttr(bTITLE, HNum2(ww.first, ww.last, hWBBOX) \o <<gXFONT>> \o HocrFont(ww.first) \o <<gXFSIZE>> \o HNum(ww.first, hWSIZE)))
        \o HocrText(Strip(ww.text)) \o EndTag(hSPAN)
 \* what write_word compares: baseline, font name, size - here the size class and the glyph's parent (its line)
-WordKey(j) == T[j].a + 2 * Parent(T, j)
+WordKey(j) == T[j].a + 100000 * Parent(T, j)
 \* one glyph j arriving at the word collector:  <<output, new word state>>
 HocrChar(j) ==
   LET s == T[j].s IN
